@@ -53,6 +53,8 @@ pub struct Outcome {
 pub struct ExecOpts {
     /// Per-call wall-clock bound in ns (C01 only; 0 = do not measure).
     pub time_bound_ns: u64,
+    /// Per-call bound on the bytes requested from the allocator (C01 only; 0 = no bound).
+    pub alloc_bound_bytes: u64,
     /// Record a human-readable event log (replay / samples).
     pub log: bool,
     /// selftest fsmodel: run over real directories under this path instead of SimDisk.
@@ -63,6 +65,7 @@ impl Default for ExecOpts {
     fn default() -> Self {
         ExecOpts {
             time_bound_ns: 0,
+            alloc_bound_bytes: 0,
             log: false,
             mirror_base: None,
         }
@@ -118,6 +121,9 @@ struct Slot {
     lm: LearnModel,
     /// Observation history (most recent last, at most 4).
     hist: Vec<Obs>,
+    /// Which version of the user's auto-correct list (World::ac_epoch) this context loaded last
+    /// (at creation, restart or an executed update_engine).
+    ac_seen: u64,
 }
 
 pub struct World<'a> {
@@ -136,10 +142,15 @@ pub struct World<'a> {
     durable_prev: Option<Option<LearnModel>>,
     pub log: Vec<String>,
     slow_call: Option<(usize, u64)>,
+    /// C01: the first call that requested more bytes from the allocator than the bound.
+    heavy_call: Option<(usize, u64)>,
+    run_max_call_ns: u64,
     cur: usize,
     /// C11: a clock fault (mtime tie / regress / list deleted) happened; divergences after
     /// it are informational.
     clock_fault: Option<&'static str>,
+    /// Counts external changes of the user's auto-correct list.
+    ac_epoch: u64,
 }
 
 fn site_of(msg: &str) -> String {
@@ -204,8 +215,11 @@ impl<'a> World<'a> {
             durable_prev: None,
             log: Vec::new(),
             slow_call: None,
+            heavy_call: None,
+            run_max_call_ns: 0,
             cur: 0,
             clock_fault: None,
+            ac_epoch: 0,
         }
     }
 
@@ -243,21 +257,38 @@ impl<'a> World<'a> {
         }
     }
 
-    fn timed<T>(&mut self, f: impl FnOnce() -> T) -> T {
+    /// Start of a metered call into riti (C01 only): the thread's CPU time, not wall-clock
+    /// time (a blow-up burns CPU, and a worker that merely waited for a core while other
+    /// batches load the machine must not look slow), and the bytes the thread has requested
+    /// from the allocator so far (a cost that is the same in every execution).
+    fn meter_start(&self) -> Option<(u64, u64)> {
         if self.opts.time_bound_ns == 0 {
-            return f();
+            None
+        } else {
+            Some((thread_cpu_ns(), crate::ffi::total_allocated()))
         }
-        // CPU time of this thread, not wall-clock time: a blow-up burns CPU, and a worker
-        // that merely waited for a core (other batches on the machine) must not look slow
-        let t0 = thread_cpu_ns();
+    }
+
+    fn meter_end(&mut self, m: Option<(u64, u64)>) {
+        if let Some((t0, a0)) = m {
+            let dt = thread_cpu_ns().saturating_sub(t0);
+            let da = crate::ffi::total_allocated().wrapping_sub(a0);
+            self.stats.max_call_ns = self.stats.max_call_ns.max(dt);
+            self.stats.max_call_alloc = self.stats.max_call_alloc.max(da);
+            self.run_max_call_ns = self.run_max_call_ns.max(dt);
+            if dt > self.opts.time_bound_ns && self.slow_call.is_none() {
+                self.slow_call = Some((self.cur, dt));
+            }
+            if self.opts.alloc_bound_bytes > 0 && da > self.opts.alloc_bound_bytes && self.heavy_call.is_none() {
+                self.heavy_call = Some((self.cur, da));
+            }
+        }
+    }
+
+    fn timed<T>(&mut self, f: impl FnOnce() -> T) -> T {
+        let m = self.meter_start();
         let r = f();
-        let dt = thread_cpu_ns().saturating_sub(t0);
-        if dt > self.stats.max_call_ns {
-            self.stats.max_call_ns = dt;
-        }
-        if dt > self.opts.time_bound_ns && self.slow_call.is_none() {
-            self.slow_call = Some((self.cur, dt));
-        }
+        self.meter_end(m);
         r
     }
 
@@ -390,6 +421,7 @@ impl<'a> World<'a> {
             fe,
             lm,
             hist: vec![Obs::idle_empty()],
+            ac_seen: self.ac_epoch,
         };
         self.attach_auto_twin(&mut slot)?;
         self.slots[h as usize] = Some(slot);
@@ -769,6 +801,20 @@ impl<'a> World<'a> {
                 self.stats.bump(&format!("unspecified.{}", why));
                 self.slots[h as usize].as_mut().unwrap().fe.model = shown;
             }
+            ModelStep::OneOf(allowed, why) => {
+                self.stats.evaluations += 1;
+                self.stats.bump(&format!("oracle.C12_one_of.{}", why));
+                if !allowed.contains(&shown) {
+                    return Err(Stop::Violation(
+                        "rule-refinement".into(),
+                        format!(
+                            "after {}: composed text was {:?}, key value {:?} under [{}] ({}) may give any of {:?} but the engine shows {:?}",
+                            what, model, value, spec.describe(), why, allowed, shown
+                        ),
+                    ));
+                }
+                self.slots[h as usize].as_mut().unwrap().fe.model = shown;
+            }
             ModelStep::Reph => {
                 self.stats.bump("unspecified.reph key (decided by C13)");
                 self.slots[h as usize].as_mut().unwrap().fe.model = shown;
@@ -889,23 +935,13 @@ impl<'a> World<'a> {
         let (byte, premise) = Self::resolve_sel(sel, &before);
         let what = format!("key {} (modifier {}, selection {}) on host {}", self.key_name(key), m, byte, h);
         let had_unflushed = self.disk.has_unflushed();
+        let meter = self.meter_start();
         let r = {
             let slot = self.slots[h as usize].as_mut().unwrap();
             let host = &mut slot.host;
-            // (timing inline: cannot borrow self mutably twice)
-            let t0 = if self.opts.time_bound_ns > 0 { Some(thread_cpu_ns()) } else { None };
-            let r = host.key(key, m, byte);
-            if let Some(t0) = t0 {
-                let dt = thread_cpu_ns().saturating_sub(t0);
-                if dt > self.stats.max_call_ns {
-                    self.stats.max_call_ns = dt;
-                }
-                if dt > self.opts.time_bound_ns && self.slow_call.is_none() {
-                    self.slow_call = Some((self.cur, dt));
-                }
-            }
-            r
+            host.key(key, m, byte)
         };
+        self.meter_end(meter);
         self.after_host_call(h, had_unflushed);
         let obs = match r {
             Ok(o) => o,
@@ -1053,15 +1089,9 @@ impl<'a> World<'a> {
         };
         let what = format!("{}backspace on host {}", if ctrl { "ctrl-" } else { "" }, h);
         let had_unflushed = self.disk.has_unflushed();
-        let t0 = if self.opts.time_bound_ns > 0 { Some(thread_cpu_ns()) } else { None };
+        let meter = self.meter_start();
         let r = self.slots[h as usize].as_mut().unwrap().host.backspace(ctrl);
-        if let Some(t0) = t0 {
-            let dt = thread_cpu_ns().saturating_sub(t0);
-            self.stats.max_call_ns = self.stats.max_call_ns.max(dt);
-            if dt > self.opts.time_bound_ns && self.slow_call.is_none() {
-                self.slow_call = Some((self.cur, dt));
-            }
-        }
+        self.meter_end(meter);
         self.after_host_call(h, had_unflushed);
         let obs = match r {
             Ok(o) => o,
@@ -1223,15 +1253,9 @@ impl<'a> World<'a> {
             slot.lm.taint(&w);
         }
 
-        let t0 = if self.opts.time_bound_ns > 0 { Some(thread_cpu_ns()) } else { None };
+        let meter = self.meter_start();
         let r = self.slots[h as usize].as_mut().unwrap().host.commit(i);
-        if let Some(t0) = t0 {
-            let dt = thread_cpu_ns().saturating_sub(t0);
-            self.stats.max_call_ns = self.stats.max_call_ns.max(dt);
-            if dt > self.opts.time_bound_ns && self.slow_call.is_none() {
-                self.slow_call = Some((self.cur, dt));
-            }
-        }
+        self.meter_end(meter);
         let outcomes = self.after_host_call(h, had_unflushed);
         let session_after = match r {
             Ok(s) => s,
@@ -1531,12 +1555,15 @@ impl<'a> World<'a> {
             }
             self.stats.bump("probe.update_in_lock_step");
             self.note(|| format!("{} (also applied to the reference context)", what));
+            let epoch = self.ac_epoch;
             let slot = self.slots[h as usize].as_mut().unwrap();
             slot.fe.reset();
+            slot.ac_seen = epoch;
             return Ok(());
         }
         self.note(|| what.clone());
         self.digest = fnv_add(self.digest, &[b'u', h]);
+        self.slots[h as usize].as_mut().unwrap().ac_seen = self.ac_epoch;
         self.stats.bump(match (old.layout, cfg.layout) {
             (a, b) if a == b => "probe.update_same_layout",
             (LayoutKind::Phonetic, _) => "probe.update_phonetic_to_fixed",
@@ -1678,6 +1705,7 @@ impl<'a> World<'a> {
             Mt::Now => {}
         }
         if file == FileId::Autocorrect {
+            self.ac_epoch += 1;
             match (mt, st, &cur) {
                 (Mt::Tie, _, Some(_)) => self.clock_fault = Some("mtime_tie"),
                 (Mt::Back(_), _, Some(_)) => self.clock_fault = Some("mtime_regress"),
@@ -1930,8 +1958,11 @@ impl<'a> World<'a> {
         if !self.disk.is_mirror() && self.disk.counts().2 > 0 {
             return Err(Stop::Inconclusive("the learned store was written during the run (premise: store held fixed)".into()));
         }
+        // premise: every compared context has loaded the current version of the user's
+        // auto-correct list (a sub-history without the re-load is not comparable)
+        let epoch = self.ac_epoch;
         let reference = match &self.slots[0] {
-            Some(s) if s.host.alive() && s.fe.typed_ok && !s.fe.typed.is_empty() => s,
+            Some(s) if s.host.alive() && s.fe.typed_ok && !s.fe.typed.is_empty() && s.ac_seen == epoch => s,
             _ => return Ok(()),
         };
         let ref_typed = reference.fe.typed.clone();
@@ -1946,7 +1977,7 @@ impl<'a> World<'a> {
                 Some(s) if s.host.alive() => s,
                 _ => continue,
             };
-            if s.host.spec != ref_spec || !s.fe.typed_ok || s.fe.typed != ref_typed {
+            if s.host.spec != ref_spec || !s.fe.typed_ok || s.fe.typed != ref_typed || s.ac_seen != epoch {
                 self.stats.bump("oracle.C05_execution_not_comparable");
                 continue;
             }
@@ -2007,12 +2038,28 @@ impl<'a> World<'a> {
             let mut stepped = self.step(op);
             crate::watch::leave_call();
             if stepped.is_ok() && self.scenario == Scenario::Crashfree {
-                if let Some((at, dt)) = self.slow_call {
-                    // a blow-up in time (and usually memory) must not be allowed to run on
+                if let Some((at, bytes)) = self.heavy_call {
+                    // the deterministic twin of the time bound: the same in every execution.
+                    // A blow-up in time and memory must not be allowed to run on.
                     stepped = Err(Stop::Violation(
-                        "time-bound".into(),
-                        format!("call #{} took {} ms (bound {} ms)", at, dt / 1_000_000, self.opts.time_bound_ns / 1_000_000),
+                        "cost-bound".into(),
+                        format!(
+                            "call #{} requested {} MiB from the allocator (bound {} MiB): a blow-up in time and memory",
+                            at,
+                            bytes >> 20,
+                            self.opts.alloc_bound_bytes >> 20
+                        ),
                     ));
+                } else if let Some((at, dt)) = self.slow_call {
+                    // A slow call alone does not end the run at once: when the cause is a
+                    // blow-up the next calls cross the allocation bound, which is reported
+                    // instead (it replays exactly). Five times the bound ends the run anyway.
+                    if self.run_max_call_ns > 5 * self.opts.time_bound_ns {
+                        stepped = Err(Stop::Violation(
+                            "time-bound".into(),
+                            format!("call #{} took {} ms (bound {} ms)", at, dt / 1_000_000, self.opts.time_bound_ns / 1_000_000),
+                        ));
+                    }
                 }
             }
             match stepped {
